@@ -20,7 +20,33 @@ LEVEL = 'proof'
 MIN_OBLIGATIONS = 100
 P = 'tally.parsers.'
 SeqStr = z3.SeqSort(StrS)
-Rows = z3.SeqSort(SeqStr)
+# a CSV row is an opaque object with a length and cells (RowLen / Cell): one level of sequences keeps both proof and REFUTATION within the solvers'
+# reach (with rows as Seq(Seq String) z3 answered `unknown: incomplete (theory seq)` on every failing invariant step, cvc5 could not read them)
+Rows = z3.SeqSort(ObjS)
+RowLen = UF('row.len', ObjS, IntS)
+Cell = UF('row.cell', ObjS, IntS, StrS)
+
+
+class _Row:
+    """spec-side view of a row object: r[i] and len"""
+
+    def __init__(self, e):
+        self.e = e
+
+    def __getitem__(self, i):
+        return Cell(self.e, i)
+
+
+def row_hooks(sp):
+    def getitem(I, o, k, node):
+        zk = to_z3(k, IntS)
+        n = RowLen(o.expr)
+        inb = z3.And(zk >= -n, zk < n)
+        if not I.ctx.branch(inb, 'index@%d' % node.lineno, prune=True):
+            I.raise_py('IndexError', node)
+        return Cell(o.expr, z3.If(zk >= 0, zk, n + zk))
+    sp.field_sorts[('row', '[]')] = getitem
+    sp.field_sorts[('row', 'len')] = lambda I, o, node: RowLen(o.expr)
 strip = UF('str.strip', StrS, StrS)
 split_ws = UF('str.split_ws', StrS, SeqStr)
 DateOK = UF('strptime.ok', StrS, StrS, BoolS)
@@ -83,22 +109,26 @@ class Shape:
         return m
 
     def desc(self, r):
+        r = _Row(r)
         if self.mode == 'M2':
             return z3.Concat(strip(r[self.cb]), z3.StringVal(' ('), strip(r[self.ca]), z3.StringVal(')'))
         return strip(r[self.dsc])
 
     def date_part(self, r):
+        r = _Row(r)
         cell = strip(r[self.dc])
         return z3.If(z3.Contains(self.fmt, z3.StringVal(' ')), cell, split_ws(cell)[0])
 
     def eff(self, r):
+        r = _Row(r)
         v = AmtVal(strip(r[self.ac]), self.sep)
         return z3.If(self.abs, z3.If(v >= 0, v, -v), z3.If(self.neg, -v, v))
 
-    def wf(self, r):
-        return z3.And(z3.Length(r) > self.maxcol(),
-                      z3.Length(strip(r[self.dc])) > 0, z3.Length(self.desc(r)) > 0, z3.Length(strip(r[self.ac])) > 0,
-                      DateOK(self.date_part(r), self.fmt), AmtOK(strip(r[self.ac]), self.sep), self.eff(r) != 0)
+    def wf(self, r0):
+        r = _Row(r0)
+        return z3.And(RowLen(r0) > self.maxcol(),
+                      z3.Length(strip(r[self.dc])) > 0, z3.Length(self.desc(r0)) > 0, z3.Length(strip(r[self.ac])) > 0,
+                      DateOK(self.date_part(r0), self.fmt), AmtOK(strip(r[self.ac]), self.sep), self.eff(r0) != 0)
 
     def out_cols(self):
         """tracked fields of a transaction: (name, sort, spec value of row r, extractor from the txn dict)"""
@@ -111,10 +141,10 @@ class Shape:
         if self.mode == 'M1a':
             cols.append(('field_is_none', BoolS, lambda r: z3.BoolVal(True), lambda d: z3.BoolVal(d['field'] is None)))
         elif self.mode == 'M1b':
-            cols.append(('field.kind', StrS, lambda r: strip(r[self.ek]), lambda d: _field(d, ['kind'], 'kind')))
+            cols.append(('field.kind', StrS, lambda r: strip(_Row(r)[self.ek]), lambda d: _field(d, ['kind'], 'kind')))
         else:
-            cols.append(('field.a', StrS, lambda r: strip(r[self.ca]), lambda d: _field(d, ['a', 'b'], 'a')))
-            cols.append(('field.b', StrS, lambda r: strip(r[self.cb]), lambda d: _field(d, ['a', 'b'], 'b')))
+            cols.append(('field.a', StrS, lambda r: strip(_Row(r)[self.ca]), lambda d: _field(d, ['a', 'b'], 'a')))
+            cols.append(('field.b', StrS, lambda r: strip(_Row(r)[self.cb]), lambda d: _field(d, ['a', 'b'], 'b')))
         return cols
 
 
@@ -135,6 +165,7 @@ def h_rows(mode):
                for name, sort, val, ex in cols}
         sp = Spec()
         sp.exc_table.update({'ExpressionError': 'Exception'})
+        row_hooks(sp)
         I = Interp(ctx, sp)
         transforms, data_sources, rules = Obj(ctx.fresh('transforms', ObjS)), Obj(ctx.fresh('data_sources', ObjS)), Obj(ctx.fresh('rules', ObjS))
 
@@ -198,7 +229,7 @@ def h_rows(mode):
                 o.extend(g.unfold(it.cols[0], k))
             # external-function fact: a non-empty stripped cell has at least one whitespace-separated part
             if not z3.is_int_value(k) or k.as_long() >= 0:
-                cell = strip(it.cols[0][k][sh.dc])
+                cell = strip(Cell(it.cols[0][k], sh.dc))
                 o.append(z3.Implies(z3.Length(cell) > 0, z3.Length(split_ws(cell)) >= 1))
             return o
 
